@@ -1,6 +1,7 @@
 """C18 — timers fire once, on time, in order; cancel semantics; callbacks may call in; periodic services persist."""
 import json, os, re
 import vlib
+from props import c17_pair
 
 MANIFEST = dict(
     level=("proof", "Coq theorems over an LTS read off timer.c/clock.c (sorted stable active list, detached expired "
@@ -11,13 +12,21 @@ MANIFEST = dict(
            "(the pre-repair `return (t->id)` after the unlock — found by this check, repaired in /repo, its schedule "
            "replayed on every run; no global expiry order across batches; no cancel of a detached timer).  Tied to the code by running "
            "/repo's timer.c+clock.c under a virtual clock (ASan, 1-3 caller threads) against the extracted model on "
-           "generated programs, and by driving the real replay/gids/random re-arm callbacks for virtual hours.",
+           "generated programs, and by driving the real replay/gids/random re-arm callbacks for virtual hours.  The "
+           "group-map refresh is additionally proved over a model of the PAIR gids.c + timer.c (GidsTimerModel, "
+           "Properties_C18_gids.v: for every sequence of edits, clock changes, SIGHUPs at any point incl. inside a running "
+           "refresh, and every outcome of the rebuild: whenever no refresh is running the timer recorded in gids->timer is "
+           "pending and due within one interval; exact count of refresh chains; timer thread never stuck; the variant that "
+           "returns early on a failed build is refuted by a witness) and tied by running /repo's gids.c and timer.c together "
+           "with scripted NSS failures and SIGHUPs inside refreshes (harness/gids_timer_harness.c) against the extracted "
+           "model, the recurrence clause being evaluated directly on the implementation's log.",
            "7 C18"),
     note="Trusted: Coq kernel, gen_facts probe, extraction, harness/driver glue, the --wrap shims for clock_gettime "
          "and pthread_cond_{wait,timedwait,signal}; timer.c itself is modelled and tied by differential testing, not "
          "verified.  Ids are proved unique below LONG_MAX set operations (the code wraps to 1 after that).",
     technique="Coq proof (invariants over an LTS, runs as label lists) + extracted oracle + deterministic virtual-time "
-              "harness on timer.c + property evaluated on the callback log + periodic-service run")
+              "harness on timer.c + property evaluated on the callback log + periodic-service run + gids.c and timer.c "
+              "linked together with scripted NSS failures and SIGHUPs inside refreshes")
 
 WRAPS = "-Wl,--wrap=clock_gettime,--wrap=pthread_cond_wait,--wrap=pthread_cond_timedwait,--wrap=pthread_cond_signal"
 FINDING_KEY = "C18-set-returns-id-after-unlock"
@@ -666,7 +675,7 @@ def crosscheck_extraction(ctx, lines, mod):
 
 def run(ctx):
     ctx.level = "proof"
-    proved = vlib.prove(ctx, ["Properties_C18.v"], facts=["timer"])
+    proved = vlib.prove(ctx, ["Properties_C18.v", "Properties_C18_gids.v"], facts=["timer", "gids"])
     ctx.log("proofs:", "ok" if proved else "BROKEN: " + getattr(ctx, "broken_obligation", "?"))
     ctx.cov["rule"] = (
         "proof: Properties_C18.v over TimerModel (constants regenerated from timer.c/clock.c/random.c/munge_defs.h); "
@@ -679,6 +688,11 @@ def run(ctx):
         "steps = 100+ (600+) virtual hours with forward jumps and SIGHUP-style gids_update calls, judged by an "
         "independent statement of 'each service always has one timer pending and re-arms at the first clock reading "
         "at or after its expiry'; a sample of oracle answers re-evaluated with vm_compute inside Coq; "
+        "pair = /repo's gids.c AND timer.c linked together (T lines of tools/props/c17_pair.py): scripts of database "
+        "edits, clock steps and jumps around the interval, transient group-database failures at any entry, SIGHUPs at "
+        "top level and parked inside refreshes, intervals 0/1/60/3600 — compared with the extracted GidsTimerModel and "
+        "judged by 'after every refresh returns, whatever the rebuild did, a refresh timer is pending within one "
+        "interval; due timers fire once and never early; gids_destroy finds the recorded timer pending'; "
         "non-trivial = every case (distinct by content)")
     oracle = vlib.build_oracle(ctx, "timer")
     exe, err = build_harness(ctx)
@@ -691,6 +705,22 @@ def run(ctx):
     npar = 15000 if ctx.thorough else 500
     nrace = 100 if ctx.thorough else 9
     replay_obj = json.load(open(ctx.replay)) if getattr(ctx, "replay", None) else None
+    # the group-map refresh on the real timer.c: gids.c + timer.c together
+    pres = None
+    if not replay_obj or "pair_case_line" in replay_obj:
+        goracle = vlib.build_oracle(ctx, "gids")
+        pres = c17_pair.run(ctx, "C18", goracle, 40000 if ctx.thorough else 3000, {"C18"},
+                            replay_line=replay_obj.get("pair_case_line") if replay_obj else None)
+        ctx.cov["pair"] = dict(cases=pres["cases"], failing=len(pres["fails"]), mismatches=len(pres["mismatches"]),
+                               **pres.get("stats", {}))
+        ctx.log("gids+timer pair: %d cases, %d fail a clause, %d mismatches" % (
+            pres["cases"], len(pres["fails"]), len(pres["mismatches"])))
+        if goracle is None and proved:
+            ctx.violation("gids oracle does not build", {"obligation": "oracle build (gids)", "notes": ctx.notes[-1:]},
+                          found_input=False)
+        c17_pair.report(ctx, "C18", pres, {"C18"})
+        if replay_obj:
+            return
     if replay_obj:
         lines = [replay_obj["case_line"]] if "case_line" in replay_obj else []
     else:
